@@ -65,9 +65,42 @@ fn gen(rng: &mut Rng, tier: Tier) -> Value {
     Tier::Quick => 12,
     Tier::Thorough => 30,
   };
-  let n = rng.range(2, max_steps);
   let mut steps = Vec::new();
   let mut ops_so_far: Vec<Op> = Vec::new();
+  if rng.chance(1, 16) {
+    // many replacements over very few distinct keys: the order among equal
+    // keys (insertion order) only matters when a sort is not stable, and
+    // small slices are sorted stably by most algorithms, so go beyond 20
+    let b = crate::gen::boundaries(&inner);
+    let keys: Vec<(u32, u32)> = (0..rng.range(1, 3))
+      .map(|_| {
+        let i = rng.below(b.len());
+        let j = rng.range(i, b.len() - 1);
+        (b[i] as u32, if rng.chance(1, 2) { b[i] as u32 } else { b[j] as u32 })
+      })
+      .collect();
+    let total = rng.range(24, 70);
+    for k in 0..total {
+      let (start, end) = *rng.pick(&keys);
+      let op = Op {
+        start,
+        end,
+        content: format!("<{k}>"),
+        name: None,
+        enforce: if rng.chance(1, 5) { rng.below(3) as u8 } else { 1 },
+        plain_api: rng.chance(1, 2),
+      };
+      steps.push(Step::Mutate(op));
+      if rng.chance(1, 12) {
+        steps.push(Step::Observe(rng.below(11) as u8));
+      }
+    }
+    steps.push(Step::Observe(0));
+    return serde_json::to_value(Case { inner, original: rng.chance(1, 2), steps })
+      .map(|c| json!({ "history": c }))
+      .unwrap();
+  }
+  let n = rng.range(2, max_steps);
   for _ in 0..n {
     match rng.below(10) {
       0..=4 => {
@@ -225,6 +258,9 @@ fn check(case: &Value, obs: &mut Obs) {
   });
   if keys_collide {
     obs.class("equal_keys");
+  }
+  if ops.len() > 20 {
+    obs.class("more_than_20_replacements(unstable sort visible)");
   }
   if ops.iter().any(|o| o.enforce != 1) {
     obs.class("enforce");
